@@ -102,6 +102,7 @@ func genQCfg(rc *RunCtx) QCfg {
 	case "C08":
 	}
 	c.E2E = NewPRNG(rc.Seed^0xe2e).Chance(1, 5) // own stream
+	c.UnixSocket = NewPRNG(rc.Seed^0x50c7).Chance(1, 8)
 	if tr := NewPRNG(rc.Seed ^ 0x7715); (rc.Prop == "C04" || rc.Prop == "C02" || rc.Prop == "C03") && tr.Chance(1, 4) {
 		c.TLS = true // consumers may upgrade to TLS (the writer stack is rebuilt on the upgrade: buffering must stay as negotiated)
 	}
